@@ -165,7 +165,7 @@ func main() {
 	vsync.PoolMissDeviations = true
 	vkit.Main(&vkit.Spec{
 		Property: "C20", Level: "model_checking",
-		Rule: "sequential: one case = one execution of a program (sequence of Malloc/Append/AppendString/Realloc/Free on <=3 simultaneously live handles, sizes from the allocator's boundary set) with one assignment of sync.Pool answers, replayed from scratch on a fresh allocator; all programs up to the depth bound are covered by breadth-first search with merging of equal (implementation, model) states; a case is non-trivial when its last operation got recycled memory, moved the buffer, or ran with >=2 live buffers. extended search (<allocator>+rel): the same on a reduced absolute alphabet plus the caller's reslices X (to length 0 and to the capacity) and Realloc/Append/AppendString targets derived from the current len l and cap c of the handle (c+1, 2l-1, 2l, 2l+1, 2c-1, 2c, 2c+1, 3c+1, l+1, c, 2c-l, 2c-l+1, 4c, 4l+1; growth only), any number per program, and Malloc sizes derived from the capacity of the buffers given back (cap, cap+1, class, class-1, class/2+1 with class = next power of two), so that buffers with len < cap reached by every route (shrinking Realloc, Malloc rounding up, Append or growing Realloc leaving spare capacity, caller reslice) are grown by factors below, at and above 2x of both len and cap. class-invariant probe (every state of the aligned allocator): a live buffer whose capacity is neither a power of two >= 32 nor above 32768 extends the program by Free + Malloc(class, class-1, cap+1, class/2+1) under every pool answer; only a contract violation of the extended program is reported. family grow-free-malloc: M(start) [X=len] grow(T) F M(n) for start over the size classes, len in {start, start-5, 0}, T in {len+5, c+1, 1.25c, 1.5c, 2c-1, 2c, 2c+1, 2.5c, 3c-1, 3c, 3c+1, 4c, 5c, 7c} of the capacity c (where the runtime's append lands between the allocators' classes), grow in {Append, AppendString, Realloc}, n derived from the grown capacity. concurrent: one scenario = allocator x pair of thread scripts x debug counters on/off, all interleavings within the preemption bound; non-trivial when both threads held a live buffer at the same time",
+		Rule: "sequential: one case = one execution of a program (sequence of Malloc/Append/AppendString/Realloc/Free on <=3 simultaneously live handles, sizes from the allocator's boundary set) with one assignment of sync.Pool answers, replayed from scratch on a fresh allocator; all programs up to the depth bound are covered by breadth-first search with merging of equal (implementation, model) states; a case is non-trivial when its last operation got recycled memory, moved the buffer, or ran with >=2 live buffers. extended search (<allocator>+rel): the same on a reduced absolute alphabet plus the caller's reslices X (to length 0 and to the capacity) and Realloc/Append/AppendString targets derived from the current len l and cap c of the handle (c+1, 2l-1, 2l, 2l+1, 2c-1, 2c, 2c+1, 3c+1, l+1, c, 2c-l, 2c-l+1, 4c, 4l+1; growth only), any number per program, and Malloc sizes derived from the capacity of the buffers given back (cap, cap+1, class, class-1, class/2+1 with class = next power of two), so that buffers with len < cap reached by every route (shrinking Realloc, Malloc rounding up, Append or growing Realloc leaving spare capacity, caller reslice) are grown by factors below, at and above 2x of both len and cap. API surface as a dimension: every extended search and the grow-free-malloc family run twice, through the allocator's methods and (<name>/pkg) through the package-level functions mempool.Malloc/Realloc/Append/AppendString/Free with the exported DefaultMemPool set to the allocator for the execution. class-invariant probe (every state of the aligned allocator): a live buffer whose capacity is neither a power of two >= 32 nor above 32768 extends the program by Free + Malloc(class, class-1, cap+1, class/2+1) under every pool answer; only a contract violation of the extended program is reported. family grow-free-malloc: M(start) [X=len] grow(T) F M(n) for start over the size classes, len in {start, start-5, 0}, T in {len+5, c+1, 1.25c, 1.5c, 2c-1, 2c, 2c+1, 2.5c, 3c-1, 3c, 3c+1, 4c, 5c, 7c} of the capacity c (where the runtime's append lands between the allocators' classes), grow in {Append, AppendString, Realloc}, n derived from the grown capacity. concurrent: one scenario = allocator x pair of thread scripts x debug counters on/off, all interleavings within the preemption bound; non-trivial when both threads held a live buffer at the same time",
 		Assumptions: []string{
 			"sizes are >= 0; programs never use a handle after giving it to Free or after Append/Realloc returned a different handle, and never free twice (C11's subject)",
 			"bytes exposed by Malloc and by Realloc beyond the old length are unspecified; the harness overwrites them at once",
@@ -173,6 +173,7 @@ func main() {
 			"a panic escaping an allocator operation on such a program is a violation (signature '<allocator> <operation> panic: <text, numbers normalised>')",
 			"'share memory' is judged over the whole capacity [base, base+cap) of live buffers; zero-capacity buffers share nothing",
 			"capacities: the aligned allocator's Malloc trusts that a pooled buffer has the capacity of its class (Free files by the next power of two >= cap, accepting every multiple of 32), so every buffer it hands out must have a power-of-two capacity in [32, 32768] or one above 32768; this invariant is not part of the statement and is not reported by itself: it triggers a probe (Free + Malloc around the class) whose contract violation is reported. MemPool compares the pooled capacity with the request and grows it, std has no pool: no capacity invariant",
+			"the package-level functions of mempool with DefaultMemPool = A must satisfy the contract of A (that is what nbhttp calls); DefaultMemPool is swapped inside one sequential execution and restored after it, the concurrent scenarios and the general search use the methods only; a finding on that surface carries 'via-package-functions' in its signature",
 			"leaks are not violations (std Realloc and every allocator's Append may abandon the old array)",
 			"sync.Pool is the scheduler shim: Get returns the most recently pooled object or a new one (both enumerated at every Get); it never returns an older pooled object while a newer one stays pooled",
 			"production pool New(1024,1<<30): general alphabet without the 1<<30 boundary; the boundary sizes run in the restricted 'giant' family with sparse content probes",
